@@ -87,6 +87,8 @@ def plan(prop, tier, seed):
         shards += [{"kind": "cached", "n": 150 if q else 1500, "shard": i, "hz": True} for i in range(4 if q else 16)]
     if prop == "C08":
         shards += [{"kind": "padded", "n": 250 if q else 2500, "shard": i, "hz": False} for i in range(4 if q else 16)]
+        # control hazards and ecall draining must be handled whatever the memory latencies are
+        shards += [{"kind": "cached", "n": 150 if q else 1500, "shard": i, "hz": False} for i in range(3 if q else 12)]
     return shards
 
 
@@ -181,12 +183,15 @@ def run_shard(spec, res):
             case = {"kind": "pipe", "prog": G.straightline_independent(rng, n), "regs": {}, "mem": {}, "hz": True, "max_instr": 100, "straight": True}
         elif kind == "cached":
             prog, regs = G.structured_program(rng, size=rng.randint(4, 30), aligned=True) if rng.random() < 0.6 else (G.soup_program(rng, rng.randint(2, 20), aligned=True, mem_w=0.3), G.soup_regs(rng))
-            case = {"kind": "pipe", "prog": prog, "regs": regs, "mem": G.init_mem(rng), "hz": True, "max_instr": 200, "dcache": rand_cache(rng), "icache": rand_cache(rng) if rng.random() < 0.7 else None}
+            case = {"kind": "pipe", "prog": prog, "regs": regs, "mem": G.init_mem(rng), "hz": hz, "max_instr": 200, "dcache": rand_cache(rng), "icache": rand_cache(rng) if rng.random() < 0.7 else None}
             if rng.random() < 0.2:
                 case["dcache"] = None
         elif kind == "padded":
             prog, regs = pad_source(rng)
             case = {"kind": "pipe", "prog": G.pad_with_nops(prog, 2), "regs": regs, "mem": G.init_mem(rng), "hz": False, "max_instr": 400, "padded": True}
+            if rng.random() < 0.3:
+                case["dcache"] = rand_cache(rng) if rng.random() < 0.7 else None
+                case["icache"] = rand_cache(rng)
         guarded(run_case, prop, case, res)
         res.evaluations += 1
         if it < 1:
